@@ -129,6 +129,7 @@ def run(tier):
                  workers=6 if quick else 10, timeout=3000, heap="6g"),
             dict(module="MC_BitListRefine.tla", cfg="MC_BitListRefine_long.cfg", workers=4, timeout=1500)]
     chk.add_model(runs)
+    chk.cov["apalache_BitIndexLemma"] = vlib.apalache(chk.work, "obj/BitIndexLemma.tla")
     drive = vlib.build_harness(chk.work)
     # replay: spec -> code
     behs, simres = behaviours(chk, 150 if quick else 3000, 30 if quick else 60)
